@@ -319,7 +319,11 @@ type PathResult struct {
 // Lookup computes the hash path of name from the specification: murmur3 x64
 // 64-bit of the name, consumed most significant bit first, log2(fanout) bits
 // per level; the bucket's bit selects the popcount-th link.
-func (d *Dir) Lookup(name string) PathResult {
+func (d *Dir) Lookup(name string) PathResult { return d.LookupWith(name, nil) }
+
+// LookupWith is Lookup on a store where the shard blocks for which unavail
+// returns true cannot be loaded.
+func (d *Dir) LookupWith(name string, unavail func(cid.Cid) bool) PathResult {
 	h := murmur3.Sum64([]byte(name))
 	var res PathResult
 	sh := d.Root
@@ -348,7 +352,7 @@ func (d *Dir) Lookup(name string) PathResult {
 			return res
 		}
 		res.Shards = append(res.Shards, l.Cid)
-		if l.Child == nil {
+		if l.Child == nil || (unavail != nil && unavail(l.Cid)) {
 			res.Blocked = true
 			res.BlockedAt = l.Cid
 			return res
@@ -466,4 +470,27 @@ func PathBlocks(g Getter, root cid.Cid, segs []string) ([]cid.Cid, cid.Cid, erro
 		blocks = append(blocks, cur)
 	}
 	return blocks, cur, nil
+}
+
+// Reachable lists, in depth-first link order, the entries that an iteration
+// can yield when the given shard blocks cannot be loaded, and the topmost
+// unavailable shards the iteration meets (one error each), in order.
+func (d *Dir) Reachable(unavail func(cid.Cid) bool) (entries []DirEntry, blocked []cid.Cid, links int) {
+	var walk func(s *Shard, under []cid.Cid)
+	walk = func(s *Shard, under []cid.Cid) {
+		for _, l := range s.Links {
+			links++
+			if !l.IsShard {
+				entries = append(entries, DirEntry{Name: l.Entry, Cid: l.Cid, Under: under})
+				continue
+			}
+			if l.Child == nil || (unavail != nil && unavail(l.Cid)) {
+				blocked = append(blocked, l.Cid)
+				continue
+			}
+			walk(l.Child, append(append([]cid.Cid(nil), under...), l.Cid))
+		}
+	}
+	walk(d.Root, nil)
+	return
 }
